@@ -46,6 +46,8 @@ type obsT struct {
 	preErr      string
 	probe       srv.ProbeResult
 	udp         srv.ProbeResult
+	afterTCP    srv.ProbeResult
+	afterUDP    srv.ProbeResult
 	handled     map[string]int
 	failedLoad  bool
 	final       []string
@@ -128,6 +130,10 @@ func scenario(s spec) *engine.Scenario {
 				o.failedLoad = true
 			}
 		}
+		// the reload is complete: service on the retained address must be fully there again
+		// (first connection and first datagram after the reload, answer included)
+		o.afterUDP = w.ProbeUDP(srv.Listener{Type: "udp", Addr: "127.0.0.1:9000"}, kA, 4545)
+		o.afterTCP = w.ProbeTCP(ln, kA, 4646)
 		// the pre-existing connection finishes now
 		if s.Pre != "half" {
 			pre.Send(full[cut:], 0)
@@ -172,8 +178,17 @@ func scenario(s spec) *engine.Scenario {
 					add("retained-client-not-served", "authenticated client during the reload: status %s, reply %q", o.probe.Status, o.probe.Reply)
 				}
 			}
-			if s.UDP && !o.udp.Served {
+			// (the statement promises that the datagram is handled by one generation and authenticates; it
+			// does not promise that the association outlives the generation that handled it, so the
+			// target's answer is not required here)
+			if s.UDP && !o.udp.Forwarded {
 				add("retained-key-rejected{udp}", "a datagram under a retained key sent during the reload did not reach the target (authenticated=%v)", o.udp.Authed)
+			}
+			if !o.afterUDP.Served {
+				add("first-datagram-after-reload-not-served", "the first datagram on the retained address after the reload had completed: forwarded=%v, answer relayed=%v", o.afterUDP.Forwarded, o.afterUDP.Served)
+			}
+			if !o.afterTCP.Served {
+				add("first-connection-after-reload-not-served", "the first connection on the retained address after the reload had completed: status %s", o.afterTCP.Status)
 			}
 			for r, n := range o.handled {
 				if n != 1 {
@@ -187,7 +202,7 @@ func scenario(s spec) *engine.Scenario {
 				add("bound-after-stop", "%v", o.final)
 			}
 		}
-		obs := fmt.Sprint(o.probe.Status, o.probe.Served, o.udp.Served, o.preGot == o.preWant, len(o.handled))
+		obs := fmt.Sprint(o.probe.Status, o.probe.Served, o.udp.Forwarded, o.preGot == o.preWant, len(o.handled))
 		return obs, true, fs
 	}
 	return sc
